@@ -87,6 +87,18 @@ Theorem C16_no_query_raises :
 Proof. exact no_query_raises. Qed.
 Print Assumptions C16_no_query_raises.
 
+(* wait-freedom: whatever the other threads do and however the scheduler interleaves them, a
+   thread that gets at least `steps_left` turns (at most max_repeats + 9 per query) has answered
+   ALL the queries of its program, in order -- no step of one thread can block another *)
+Theorem C16_wait_free :
+  forall cfg orc sched st ths st' ths' tr i th,
+  run cfg orc sched st ths = (st', ths', tr) -> nth_error ths i = Some th ->
+  steps_left cfg th <= count_occ Nat.eq_dec sched i ->
+  exists th', nth_error ths' i = Some th' /\ finished th' = true /\ t_todo th' = [] /\
+              rev (map fst (t_done th')) = program th.
+Proof. exact wait_free. Qed.
+Print Assumptions C16_wait_free.
+
 (* the hypothesis on thread ids cannot be dropped: with one id for two live threads a shared
    reusable optimizer hands a thread the other thread's tree (CPython guarantees distinct
    idents for live threads; the check asserts it) *)
